@@ -176,6 +176,9 @@ impl Prop for C01 {
     fn fuzz_target(&self) -> Option<&'static str> {
         Some("fz_choices")
     }
+    fn fuzz_runs(&self) -> u64 {
+        150000
+    }
     fn stream_len(&self, tier: Tier) -> usize {
         tier.pick(700, 900)
     }
